@@ -153,6 +153,14 @@ CHECKS = {
             'background deviations add in quadrature (exact bookkeeping + sampled).',
             'distributional clauses are decided statistically (false-alarm < 1e-6 per run); own tables keep means above deviations',
             'DESIGN.md 3/C11'),
+    'C12': ('exploration',
+            'generated seeded API programs executed in pristine forked children, after unrelated prefixes, in a long-lived process and in a fresh interpreter with another hash seed; digest comparison (metamorphic); copy/pickle isolation invariants',
+            'Scenario programs from a grammar (frame noise, RFI path, pulse profile, stream/array requests, channelised-noise estimate, 1-3 recordings with '
+            'default / fresh / reused header dictionaries, arrays and single antennas, re-injection via from_data) must produce identical SHA-256 digests '
+            'in every execution context, a second recording with the same backend must equal a fresh backend at the same antenna state, and copies / '
+            'pickles of frames from every route must be equal to and independent of the original; different seeds must give different noise.',
+            'pristine process = fork of a zygote that only imported the library (a real interpreter start with PYTHONHASHSEED=1 is sampled once per shard / more in thorough); finite scenario grammar',
+            'DESIGN.md 3/C12'),
 }
 
 ALL = [f'C{i:02d}' for i in range(1, 21)]
